@@ -228,7 +228,7 @@ Definition tail (p : pcT) : bool := match p with E8 _ | E9 _ | E10 => true | _ =
 (* holds the baton: may run Lua / start protocol actions *)
 Definition active (p : pcT) : bool :=
   match p with
-  | NotCreated | Done => false
+  | NotCreated | Done | Panicked => false      (* Panicked = the Go process died (fatal error / panic) *)
   | _ => negb (waiting p) && negb (tail p)
   end.
 
